@@ -14,7 +14,7 @@ MANIFEST = dict(
          "scripted peers; reply class and the session table / pools / proxy table / OIDC subject list are compared after every step.",
     note="Trusted: Coq kernel+VM; harness transcription; MD5 preimage resistance and go-oidc signature checking (oracles H and oidc). "
          "'Proved knowledge of the credential' = presented md5(token||ts); replay of an old pair is not excluded (DESIGN 4a). "
-         "Plugin hooks are the identity (C15). Only observed, not proved: behaviour on websocket/tls/kcp/quic listeners, "
+         "The NewWorkConn plugin chain is an oracle whose OUTPUT is what gets verified (scripted http plugin in the driver); Login/Ping/NewProxy hooks are the identity (C15). Only observed, not proved: behaviour on websocket/tls/kcp/quic listeners, "
          "connection closure after a refusal, liveness of the victim session after a barrage.",
     technique="Coq proof (invariant by induction over fold_left step) + differential correspondence via vm_compute + trace monitors",
     design="4/C04")
@@ -26,7 +26,10 @@ def q(tier, quick, thorough):
 
 # model branches the property names: the run must reach each of them, otherwise the correspondence says nothing about it
 REQUIRED = ["NLOGINOK", "NLOGINREFUSED", "NWORKPOOLED", "NWORKSILENT", "NWORKAUTHREFUSED", "NPONG", "NPONGERR", "NPROXYOK",
-            "NOTHERFIRST", "NINTERNALPASS", "NNETWORKCLAIM"]
+            "NOTHERFIRST", "NINTERNALPASS", "NNETWORKCLAIM",
+            # round 2: a once-valid OIDC token replayed after expiry and refused; NewWorkConn plugin rewrites the
+            # credential to an invalid one (refused) / to a valid one (pooled) / rejects
+            "NOIDCEXPIREDREFUSED", "NPLUGREWRITEREFUSED", "NPLUGREWRITEPOOLED", "NPLUGREJECT"]
 
 
 def recipe(c: Check):
@@ -52,5 +55,5 @@ def recipe(c: Check):
              "non-trivial = at least one accepted and one refused step",
         assumptions=["H (md5 of token++decimal timestamp) and oidc (go-oidc Verify) are oracles: Section variables in the theorems, tables "
                      "computed by the harness's own md5 / known by construction of the JWTs in the correspondence",
-                     "server plugin hooks are the identity (no plugin configured)",
+                     "the NewWorkConn plugin chain is an oracle (its outcome is observed/scripted; C15 owns the chain); Login/Ping/NewProxy hooks are the identity",
                      "replay of an old (timestamp, key) pair is not excluded by the property (DESIGN 4a)"])
